@@ -1,115 +1,8 @@
-"""Per-property configuration of ./check. streams = (harness stream, n quick, n thorough)."""
-PROPS = {
-    "C01": {
-        "streams": [("c01", 1500, 60000)],
-        "definitional": False,
-        "rule": "policy sets of 0-8 policies (permit/forbid x satisfied/unsatisfied/erroring x static/template-linked), "
-                "all 6^n effect-outcome vectors n<=4 plus random sets; each run under 2 permutations, 2 id respellings, reversed entity "
-                "insertion order, reused and fresh Authorizer; non-trivial = has >=1 erroring policy and both effects; distinct by canonical text",
-        "theorems": ["allow_iff", "deny_otherwise", "errors_exact", "reasons_exact", "perm_invariant", "erroring_not_satisfied", "store_extensional", "rename_equivariant", "mirror_eq_spec"],
-        "assumptions": ["per-policy evaluation is tied to the code by C02's correspondence"],
-    },
-    "C02": {
-        "streams": [("c02", 3000, 400000)],
-        "definitional": True,
-        "rule": "operator x operand-kind grid (every unary/binary operator on every pair of ~35 operand kinds) plus typed random "
-                "expressions with 6% ill-typed nodes; each evaluated via text parse, generated AST, EST JSON, eval_expression, when- and "
-                "unless-clause through is_authorized; non-trivial = >=4 subexpressions; distinct by canonical text+result",
-        "theorems": ["like_correct", "and_short", "or_short", "arith_checked", "eq_total", "set_order_dup_insensitive"],
-        "assumptions": ["error classes, not messages, are compared", "stored ancestor sets are taken from the store as built (closure is C04's subject)"],
-    },
-    "C04": {
-        "streams": [("c04", 4000, 400000)],
-        "definitional": True,
-        "rule": "histories of 1-8 operations (from_entities / add_entities / upsert_entities / remove_entities; ComputeNow, some "
-                "EnforceAlreadyComputed on closed and unclosed inputs, AssumeAlreadyComputed only as last op) over a pool of 4-8 uids: random DAGs, "
-                "diamonds, dangling parents, cycles of length 1-5, identical and conflicting duplicates inside one batch, alternative paths around a "
-                "removed/replaced node, several nodes of one chain replaced/removed in one batch; plus exhaustively every parent graph on <=3 uids "
-                "(each uid absent or present with any parent subset, 729 graphs) x every single add/upsert/remove (thorough: half of all 2-op histories "
-                "on 3 uids and single ops on 4 uids); after each op: ok/error kind, every record's sorted parents and ancestors (model vs impl), and on "
-                "the implementation alone ancestors / is_descendant_of / `e in a` via the evaluator / is_ancestor_of / `principal in X` via "
-                "is_authorized on all pairs against a reachability oracle over a harness-maintained spec parent graph, rejected <=> cyclic or "
-                "conflicting duplicate, enforce-accepted => closed and acyclic; non-trivial = >=2 ops and >=1 accepted; distinct by request text",
-        "theorems": ["enforce_exact", "enforce_reach", "from_enforce_closed", "closure_correct_partial", "repair_correct_partial",
-                     "repair_rejects_only_cycles", "add_inv_partial", "remove_inv", "upsert_inv_partial", "op_preserves_partial",
-                     "history_inv_partial", "in_iff_reach", "in_iff_reach_history"],
-        "assumptions": ["compute_tc's SCC internals (cyclic_tc) are modelled by their contract (saturation to a fixpoint), not mirrored",
-                        "HashMap/HashSet iteration order is modelled by list order; observables are compared sorted",
-                        "the wrapped TcError is private: its kind is read from the Debug form (HasCycle / MissingTcEdge)",
-                        "is_ancestor_of(a, a) is false for a present entity although documented 'same semantics as b in a' (counted, not failed: "
-                        "the reflexive case is only checked for `in`)"],
-    "C05": {
-        "streams": [("c05", 4000, 250000)],
-        "definitional": False,
-        "rule": "expression texts from a grammar-level generator with minimal / full / redundant parenthesisation (depth <= 8), the exhaustive "
-                "operator x operator grid (43 operator templates x every child position x 43 children x naked/parenthesised/doubly parenthesised), "
-                "negative-literal and i64-boundary forms in every operand position, reserved words / non-identifiers as attribute names and record keys, "
-                "escape-heavy strings, entity ids, patterns and annotation values, ASTs built from arbitrary Unicode strings, policies/templates (all scope "
-                "forms, slots, annotations, 0-3 when/unless clauses) and policy sets of 5; each accepted text: print, reparse, eq_shape/==, evaluate on "
-                "random worlds, both printers (AST Display, EST Display) for policies, sets as multisets modulo ids; model lines: Parse_model(lex t) = "
-                "parse_impl t (accept and reject), Print_model e ~ lex(print_impl e), parse_impl(render(Print_model e)) = e via the driver sub-process, "
-                "unescape_model = to_unescaped_string / like-pattern; non-trivial = accepted expression with >= 3 sub-expressions or an accepted policy "
-                "(distinct by canonical AST) or a distinct raw literal",
-        "theorems": ["unescape_escape", "unescape_escape_pattern", "parse_print_partial"],
-        "assumptions": ["the harness tokenizer (token classes of grammar.lalrpop) is trusted",
-                        "escape_debug's Unicode tables are not modelled: the theorems quantify over an arbitrary mustEscape predicate",
-                        "the LALRPOP-generated tables are tied to the model parser by the (parse ...) correspondence lines, accepts and rejects"],
-    "C06": {
-        "streams": [("c06", 6000, 500000)],
-        "definitional": False,
-        "rule": "generated Cedar text policies/templates (all operators, extension calls incl. wrong arity, has-chains, is-in, != > >=, 0-3 when/unless "
-                "clauses, annotations with escapes, both slots) and policy sets of 1-4 of them with 1-2 links per template, plus hand-built EST JSON "
-                "policies (every operator key, Value escapes, odd-but-accepted and rejected shapes); per policy: JSON via CST->EST and AST->EST, "
-                "to_json/from_json, PST, protobuf, responses on 3 worlds, printed-text re-parse; model lines: (est to)=from_json, (est of)=to_json, "
-                "(estpol to)=policy-level from_json; non-trivial = condition with >=4 subexpressions, every hand-built JSON policy, every set with links",
-        "theorems": ["est_roundtrip", "est_policy_roundtrip", "est_eval", "pst_roundtrip_partial", "proto_roundtrip_partial"],
-        "assumptions": ["serde / serde_json (text <-> JSON value) and prost's byte encoding are not modelled: only their round trips are sampled",
-                        "PST and protobuf are modelled as message trees (structure-preserving maps), their Rust conversions are tied to the code only by the sampled round trips",
-                        "JSON numbers are integers; duplicate object members cannot be expressed through serde_json::Value and are not sampled"],
-    },
-    "C07": {
-        "streams": [("c07", 6000, 600000)],
-        "definitional": True,
-        "rule": "constructor strings from fixed boundary/near-miss lists, grammar-based generators and single-character mutations; every "
-                "method on pairs of parsed values incl. i64 extremes; non-trivial = every request (distinct by request text)",
-        "theorems": ["offset_exact_or_overflow", "durationSince_exact_or_overflow", "ext_eq_by_value",
-                     "decimal_parse_exact", "decimal_parse_tooManyDigits", "decimal_parse_some_iff",
-                     "decimal_parse_none_of_not_lang",
-                     "duration_parse_exact", "duration_parse_some_iff", "duration_parse_none_of_not_lang",
-                     "duration_parse_component_overflow",
-                     "toDate_floor", "toTime_range", "toDate_add_toTime", "toX_truncating",
-                     "daysFromCivil_epoch", "daysFromCivil_consecutive", "daysFromCivil_strictMono",
-                     "network_le_addr_le_broadcast", "block_eq_interval", "isInRange_spec",
-                     "network_broadcast_bitmask", "isInRange_iff_prefix", "loopback_spec", "multicast_spec",
-                     "datetime_parse_exact_date", "datetime_parse_exact"],
-        "assumptions": ["extension values are read from the Debug form of the private structs (Decimal{value}, IPAddr{addr,prefix}, DateTime{epoch}, Duration{ms})"],
-    },
-    "C11": {
-        "streams": [("c11", 1000, 60000)],
-        "definitional": False,
-        "rule": "one case = one generated schema (2-5 entity types incl. enumerated ones, memberOfTypes DAG, tags, 2-5 actions + groups, "
-                "0-2 namespaces, common types) loaded by the real ValidatorSchema, its conformant store and requests, and ~20 single-fault "
-                "mutations (wrong type / missing required / undeclared attr at any depth in attrs, tags, context; undeclared tag; ancestor of "
-                "non-permitted type; bad enum id as uid, nested, parent, principal, resource; undeclared type; undeclared / mismatching action; "
-                "principal / resource type not applicable), each through every schema-taking entry point (16 of them, core and public API); "
-                "non-trivial = every datum, distinct by fault tag + verdict + datum JSON",
-        "theorems": [],
-        "assumptions": ["the resolved ValidatorSchema is taken from Rust (schema parsing/resolution is C09's subject)",
-                        "values are concrete: the unknown/residual branches of the Rust checkers accept unconditionally and are outside C11",
-                        "an extension value is identified with the call of its constructor (its return type is its own extension type)"],
-    "C08": {
-        "streams": [("c08", 1200, 300000)],
-        "definitional": False,
-        "rule": "(a) random histories of 1-12 operations (add, add_static, add_template, link, unlink, remove_static, remove_template, merge with/without "
-                "renaming, add of a template-linked policy) with ids from a pool of 5 (incl. policy0/policy1, the ids merge generates) over two registers, through "
-                "cedar_policy_core::ast::PolicySet and the public cedar_policy::PolicySet; templates with every ==/in/is..in slot form, exact/missing/extra bindings; "
-                "after each op: ok/error kind, renaming, sorted listing from policies()/templates()/get_linked_policies(), authorization on 2 requests. "
-                "(b) linked policy vs Rust parse of the textually substituted static policy on random worlds. (c) all histories of length <=2 (quick) / <=3 (thorough) "
-                "over 2 ids and a 24-letter op alphabet, merge partner fixed. non-trivial = history with >=1 failed op and >=1 successful link, or a linkeq case; "
-                "distinct by request text",
-        "theorems": ["link_eq_subst", "link_outcome_eq_subst", "link_ok_iff", "pset_link_ok_iff", "op_inv", "op_fail_unchanged", "no_panic", "history_inv", "authorize_considers_exactly_links", "api_add_is_add_static", "api_op_inv", "api_history_inv", "refines_spec_partial"],
-        "assumptions": ["merge_policyset is covered by the correspondence and the harness oracle only (MergeInv, RefinesSpec, ApiProjection are stated as `def : Prop`, not proved)",
-                        "core-only histories outside the public API's envelope (core link on a static policy's id, core add of a template-linked Policy, slot-less template) are compared with the model but excluded from the statement's checks; they can break the invariant and reach the panic in unlink",
-                        "source locations and the lossless (text/EST/PST) copies kept by the API layer are not modelled"],
-    },
-}
+"""Per-property configuration of ./check, one file per property under propsd/ (PROP dict + TEXT for the manifest)."""
+import importlib.util, os, glob
+PROPS, TEXT = {}, {}
+for _f in sorted(glob.glob(os.path.join(os.path.dirname(os.path.abspath(__file__)), "propsd", "C*.py"))):
+    _spec = importlib.util.spec_from_file_location("propsd_" + os.path.basename(_f)[:-3], _f)
+    _m = importlib.util.module_from_spec(_spec); _spec.loader.exec_module(_m)
+    PROPS[os.path.basename(_f)[:-3]] = _m.PROP
+    TEXT[os.path.basename(_f)[:-3]] = _m.TEXT
